@@ -27,6 +27,8 @@ MUTATIONS = {
         ('richerror', 'tonic-types/src/richer_error/std_messages/debug_info.rs', r'stack_entries: debug_info\.stack_entries,', 'stack_entries: Vec::new(),', 'stack entries lost'),
     ],
     'C14': [
+        ('errmap', 'tonic/src/status.rs', r'return Some\(Status::unavailable\(connect\.to_string\(\)\)\);', 'return Some(Status::cancelled(connect.to_string()));', 'a connect failure is not UNAVAILABLE'),
+        ('errmap', 'tonic/src/status.rs', r'source = err\.source\(\);', 'source = None;', 'only the outermost error is inspected'),
         ('reconnect', 'tonic/src/transport/channel/service/reconnect.rs', r'if !\(self\.has_been_connected \|\| self\.is_lazy\) \{', 'if !(self.has_been_connected && self.is_lazy) {', 'lazy channel reports its first failure instead of parking it'),
         ('reconnect', 'tonic/src/transport/channel/service/reconnect.rs', r'(Poll::Ready\(Err\(_\)\) => \{\s*trace!\("poll_ready; error"\);\s*)state = State::Idle;', r'\1return Poll::Ready(Ok(()));', 'dead connection reported as ready'),
         ('reconnect', 'tonic/src/transport/channel/service/reconnect.rs', r'if let Some\(error\) = self\.error\.take\(\) \{\s*tracing::debug!\("error: \{\}", error\);', 'if let Some(error) = self.error.take() {\n            self.state = State::Idle;', 'handing out the parked error also drops the connection'),
@@ -40,6 +42,8 @@ MUTATIONS = {
         ('encode', 'tonic/src/codec/encode.rs', r'buf\.put_u8\(compression_encoding\.is_some\(\) as u8\);', 'buf.put_u8(compression_encoding.is_none() as u8);', 'compressed flag polarity'),
     ],
     'C02': [
+        ('errmap', 'tonic/src/status.rs', r'code: status\.code,\n                message: status\.message\.clone\(\),', 'code: Code::Unknown,\n                message: status.message.clone(),', 'a status found in the cause chain loses its code'),
+        ('errmap', 'tonic/src/status.rs', r'metadata: status\.metadata\.clone\(\),', 'metadata: MetadataMap::new(),', 'a status found in the cause chain loses its metadata'),
         ('decode', 'tonic/src/codec/decode.rs', r'Some\(Err\(e\)\) => Err\(e\),\s*None => Ok\(None\),', 'Some(Err(_)) => Ok(None),\n            None => Ok(None),', 'message() swallows the error status'),
         ('decode', 'tonic/src/codec/decode.rs', r'(pub async fn trailers[\s\S]*?)if let Some\(trailers\) = self\.inner\.trailers\.take\(\) \{', r'\1if let Some(trailers) = self.inner.trailers.replace(HeaderMap::new()) {', 'cached trailers handed out again and again'),
         ('clientglue', 'tonic/src/client/grpc.rs', r'self\.config\.send_compression_encodings,\s*self\.config\.max_encoding_message_size,', 'None,\n                    self.config.max_encoding_message_size,', 'request body built without the configured compression'),
@@ -63,6 +67,7 @@ MUTATIONS = {
         ('encode', 'tonic/src/codec/encode.rs', r'if self\.is_end_stream \{\s*return None;\s*\}', '', 'trailers can be emitted twice'),
     ],
     'C04': [
+        ('errmap', 'tonic/src/status.rs', r'let code = Status::code_from_h2\(h2_err\);', 'let code = Code::Internal;', 'a reset seen through hyper is always INTERNAL'),
         ('status', 'tonic/src/status.rs', r"\(b'1', b'3'\) => Code::Internal,", "(b'1', b'3') => Code::Unavailable,", 'code table entry 13'),
         ('status', 'tonic/src/status.rs', r'http::StatusCode::NOT_FOUND => Code::Unimplemented,', 'http::StatusCode::NOT_FOUND => Code::NotFound,', 'HTTP 404 mapping'),
         ('status', 'tonic/src/status.rs', r'Some\(h2::Reason::REFUSED_STREAM\) => Code::Unavailable,', 'Some(h2::Reason::REFUSED_STREAM) => Code::Internal,', 'h2 REFUSED_STREAM mapping'),
@@ -96,6 +101,9 @@ MUTATIONS = {
         ('metadata', 'tonic/src/metadata/encoding.rs', r'key\.ends_with\("-bin"\)', 'key.ends_with("bin")', 'binary key suffix'),
     ],
     'C09': [
+        ('errmap', 'tonic/src/status.rs', r'return Some\(Status::cancelled\(timeout\.to_string\(\)\)\);', 'return Some(Status::unavailable(timeout.to_string()));', 'an expired deadline reported with another code'),
+        ('errmap', 'tonic/src/status.rs', r'write!\(f, "Timeout expired"\)', 'write!(f, "Timed out")', 'the cut-off status no longer reads Timeout expired'),
+        ('errmap', 'tonic/src/service/recover_error.rs', r'status\.into_http::<\(\)>\(\)', 'Status::new(crate::Code::Unknown, "").into_http::<()>()', 'the recovered status is replaced on its way out of the stack'),
         ('timeout', 'tonic/src/transport/service/grpc_timeout.rs', r'let shorter_duration = std::cmp::min\(header, server\);', 'let shorter_duration = std::cmp::max(header, server);', 'longest deadline wins'),
         ('timeout', 'tonic/src/transport/service/grpc_timeout.rs', r'if timeout_value\.len\(\) > 8 \{', 'if timeout_value.len() > 9 {', 'nine digits accepted'),
         ('timeout', 'tonic/src/request.rs', r"try_format\(duration, 'm', \|d\| d\.as_millis\(\)\)", "try_format(duration, 'm', |d| d.as_micros())", 'millisecond unit written with microsecond value'),
